@@ -273,7 +273,7 @@ def _restore(P, R):
         R.undecide("d", "restore", "File arm not found", rs)
         return
     in_arm = lambda bb: rs.edge_dominates(sw, tgt, lab, bb)
-    muts = [c for c in rs.calls() if c.bb in rs.normal_blocks() and in_arm(c.bb) and c.name.endswith(("HashMap::clear", "HashMap::insert", "HashMap::remove", "HashMap::retain", "HashMap::extend")) and "self.state" in fmt_sym(rs.sym_operand(c.args[0]), maxdepth=8)]
+    muts = [c for c in rs.calls() if c.bb in rs.normal_blocks() and in_arm(c.bb) and (c.name.endswith(("HashMap::clear", "HashMap::insert", "HashMap::remove", "HashMap::retain", "HashMap::extend")) or (c.dname or c.name).endswith("Extend::extend")) and "self.state" in fmt_sym(rs.sym_operand(c.args[0]), maxdepth=8)]
     wlock = [c for (c, m, n) in A.lock_sites(rs) if m == "w" and n.endswith(".state")]
     if not muts:
         R.violate("d", "restore-noop", "restore does not load the snapshot into the state map", rs)
@@ -316,7 +316,7 @@ def _restore(P, R):
             R.violate("d", "restore-ok-without-clear", "restore can return Ok without clearing the state map (line %d): whatever was put after the checkpoint survives the restore" % rs.stmts(skipped[0])[0][0] if rs.stmts(skipped[0]) else "restore can return Ok without clearing the state map", rs)
         else:
             R.hold("d", "every Ok return of the File arm passes state.clear()", fn=rs)
-    ext = [c for c in muts if c.name.endswith("HashMap::extend")]
+    ext = [c for c in muts if c.name.endswith("HashMap::extend") or (c.dname or c.name).endswith("Extend::extend")]
     if clears and ext and not ins and all(rs.dominates(clears[0].bb, c.bb) for c in ext) and not any(A.truncating_adapters(rs.sym_operand(c.args[1])) for c in ext if len(c.args) > 1):
         R.hold("d", "restore clears the map, then extends it with every snapshot entry", fn=rs)
     elif clears and okl and all(rs.dominates(clears[0].bb, c.bb) for c in ins):
